@@ -149,118 +149,181 @@ def _select_sites(ctx, funcs):
     return [s for s in execute_sites(ctx, funcs) if s.stmts and s.stmts[0].verb == "SELECT"]
 
 
+def _ev3(test, env, leaf):
+    """Three-valued evaluation of a guard: True / False / None (depends on something else)."""
+    if isinstance(test, ast.BoolOp):
+        vals = [_ev3(v, env, leaf) for v in test.values]
+        if isinstance(test.op, ast.And):
+            return False if False in vals else (None if None in vals else True)
+        return True if True in vals else (None if None in vals else False)
+    if isinstance(test, ast.UnaryOp) and isinstance(test.op, ast.Not):
+        v = _ev3(test.operand, env, leaf)
+        return None if v is None else not v
+    return leaf(test, env)
+
+
+def _reachable_under(conds, env, leaf):
+    return all(_ev3(t, env, leaf) in (pol, None) for t, pol in conds)
+
+
 def r2(ctx, sch):
+    """Derived transcripts/genes: decided on the provenance of every field of the record written for them (which column of
+    which query reaches which field), on the queries' conjunctive normal forms, and on the writer's path conditions."""
+    from ..flow import Flow, show
+    from ..util import closure
+    from .c02 import _find
     f = gtf_method(ctx, "_update_relations")
-    nested = [g for lst in f.nested.values() for g in lst]
-    # helpers of the same class that _update_relations calls are part of the computation
-    helpers_ = []
-    for c in calls_in(f.node):
-        for g in ctx.proj.resolve_call(c, f)[0]:
-            if g.cls is not None and g is not f and g.name not in ("_insert", "_do_merge", "_id_handler", "_replace") and g not in helpers_:
-                helpers_.append(g)
-    sels = _select_sites(ctx, [f])
-    hsels = _select_sites(ctx, helpers_)
+    pool = closure(ctx, f)
+    fl = Flow(ctx, pool)
+    sites = execute_sites(ctx, pool)
+    by_key = {(s.func.qual, s.call.lineno, s.call.col_offset): s for s in sites}
+    sels = [s for s in sites if s.stmts and s.stmts[0].verb == "SELECT"]
     pair = [s for s in sels if s.stmts[0].tables().count("relations") >= 2]
     is_ext = lambda s: any(e[0] == "call" and e[1] in ("min", "max") for e, _a in s.stmts[0].cols)
-    ext = [s for s in sels if is_ext(s)]
-    hext = [s for s in hsels if is_ext(s)]
     ctx.floor("R2", len(pair), 1, "transcript/gene pair queries")
-    pymm = [c for g in [f] + helpers_ for c in calls_in(g.node) if isinstance(c.func, ast.Name) and c.func.id in ("min", "max")]
-    ctx.ob("R2", bool(ext or hext or pymm),
-           "the extent of a derived transcript/gene is the minimum start and the maximum end over its subfeature children (MIN/MAX aggregates)", func=f,
-           sig="extents computed with MIN(start)/MAX(end)" if (ext or hext or pymm) else "derived extents are not computed as MIN(start) .. MAX(end)",
-           detail=None if (ext or hext or pymm) else "e.g. 'first row's start, last row's end under ORDER BY start, end' is wrong for nested or overlapping exons")
-    for s in hext:
-        # extent query factored into a helper: aggregates and join shape are still decidable, the record flow is not followed
-        try:
-            got = S.to_cq(s.stmts[0], sch, {0: "id", 1: "sub"})
-            spec_e = S.to_cq(S.parse(SPEC_EXTENT), sch)
-            same_body = S.cq_equivalent(_with_proj(got, []), _with_proj(spec_e, []))
-            agg = sorted((t[1], _strip_alias(t[2])) for t in got.proj if t[0] == "agg")
-            ctx.ob("R2", agg == [("max", "end"), ("min", "start")] and same_body, "extent helper %s aggregates MIN(start)/MAX(end) over the subfeature children of its argument" % s.func.name,
-                   node=s.call, func=s.func, sig="%s: extent helper %s" % (s.func.name, "≅ specification" if same_body and agg == [("max", "end"), ("min", "start")] else "differs: %s" % got.describe()))
-        except S.SQLError as e:
-            ctx.ob("R2", False, "extent helper query normalises", node=s.call, func=s.func, sig="%s: %s" % (s.func.name, e))
     # ---- pair query
     s = pair[0]
     spec = S.to_cq(S.parse(SPEC_PAIR), sch)
-    pname = {0: "sub"}
-    ok_p = isinstance(s.params, ast.Tuple) and len(s.params.elts) == 1 and norm(s.params.elts[0]) == "self.subfeature"
-    ctx.ob("R2", ok_p, "the pair query is restricted to the configured subfeature type", node=s.call, func=f,
-           sig="pair query bound to %s" % (norm(s.params) if s.params is not None else None))
+    SUB = ("attr", ("self",), "subfeature")
+    pt = fl.terms(s.params, s.func) if s.params is not None else set()
+    ok_p = pt == {("op", "tuple", SUB)} or pt == {("op", "list", SUB)}
+    ctx.ob("R2", ok_p, "the pair query is restricted to the configured subfeature type", node=s.call, func=s.func,
+           sig="pair query bound to %s" % ", ".join(sorted(show(t) for t in pt)))
     try:
-        got = S.to_cq(s.stmts[0], sch, pname)
+        got = S.to_cq(s.stmts[0], sch, {0: "sub"})
         eq = S.cq_equivalent(got, spec)
-        ctx.ob("R2", eq, "pairs = transcripts that own a subfeature at level 1, each with its level-1 parent (the gene)", node=s.call, func=f,
+        ctx.ob("R2", eq, "pairs = transcripts that own a subfeature at level 1, each with its level-1 parent (the gene)", node=s.call, func=s.func,
                sig="pair query ≅ specification" if eq else "pair query differs: " + got.describe(),
                detail=None if eq else "expected " + spec.describe())
         by_gene = bool(got.order) and len(got.proj) == 2 and _canon(got, got.order[0][0]) == _canon(got, got.proj[1])
-        ctx.ob("R2", by_gene, "pairs are ordered by gene, so 'one derived gene per gene id' can be decided on consecutive rows", node=s.call, func=f,
+        ctx.ob("R2", by_gene, "pairs are ordered by gene, so 'one derived gene per gene id' can be decided on consecutive rows", node=s.call, func=s.func,
                sig="pair query ordered by the gene column" if by_gene else "pair query not ordered by the gene column")
     except S.SQLError as e:
-        ctx.ob("R2", False, "pair query normalises", node=s.call, func=f, sig="pair query: %s" % e)
-    ploop = None
-    for n in ast.walk(f.node):
-        if isinstance(n, ast.For) and isinstance(n.target, ast.Tuple) and len(n.target.elts) == 2 and isinstance(n.iter, ast.Name):
-            recv = s.call.func.value
-            if isinstance(recv, ast.Name) and recv.id == n.iter.id:
-                ploop = n
-    ctx.require(ploop is not None, "loop over the (transcript, gene) pairs not found")
-    tvar, gvar = [e.id for e in ploop.target.elts]
-    # ---- extent queries
-    if not ext:
-        return
-    spec_e = S.to_cq(S.parse(SPEC_EXTENT), sch)
-    roles = {}
-    for s in ext:
-        p = s.params
-        ids = [norm(e) for e in p.elts] if isinstance(p, ast.Tuple) else []
-        role = "transcript" if ids[:1] == [tvar] else "gene" if ids[:1] == [gvar] else None
-        ok = role is not None and ids[1:] == ["self.subfeature"]
-        ctx.ob("R2", ok, "an extent query is bound to (the transcript or gene id, the subfeature type)", node=s.call, func=f,
-               sig="extent query bound to %s" % ids)
+        ctx.ob("R2", False, "pair query normalises", node=s.call, func=s.func, sig="pair query: %s" % e)
+    PAIR = ("row", (s.func.qual, s.call.lineno, s.call.col_offset))
+    IDS = {"transcript": ("pos", PAIR, 0), "gene": ("pos", PAIR, 1)}
+    # ---- the reader's field names
+    keys = None
+    rsep = None
+    for g in pool:
+        for c in calls_in(g.node):
+            if is_name(c.func, "zip") and len(c.args) == 2:
+                kt = fl.terms(c.args[0], g)
+                vt = fl.terms(c.args[1], g)
+                for k in kt:
+                    if k[0] == "op" and k[1] in ("list", "tuple") and len(k) >= 8 and all(x[0] == "const" and isinstance(x[1], str) for x in k[2:]):
+                        sp = [_find(v, lambda x: isinstance(x, tuple) and x[0] == "call" and x[1] == "split") for v in vt]
+                        if sp and sp[0] is not None:
+                            keys = [x[1] for x in k[2:]]
+                            rsep = sp[0][3][0][1] if sp[0][3] and sp[0][3][0][0] == "const" else None
+                            ctx.touch(g)
+    ctx.require(keys is not None, "reader of the derived-feature file (zip of field names with the split line) not found")
+    # ---- the writer: records and their fields
+    records = []
+    for g in pool:
+        for w in calls_in(g.node):
+            if call_attr(w) != "write" or not w.args:
+                continue
+            for t in fl.terms(w.args[0], g):
+                j = _find(t, lambda x: isinstance(x, tuple) and x[0] == "call" and x[1] == "join" and x[2] is not None and x[2][0] == "const" and len(x[3]) == 1)
+                if j is None:
+                    continue
+                lst = j[3][0]
+                if lst[0] == "call" and lst[1] == "map" and len(lst[3]) == 2 and lst[3][0] == ("global", "str"):
+                    lst = lst[3][1]
+                for one in (lst[1:] if lst[0] == "alt" else (lst,)):
+                    if one[0] == "op" and one[1] in ("list", "tuple") and len(one) - 2 >= 6:
+                        records.append((g, w, list(one[2:]), j[2][1]))
+    ctx.floor("R2", len(records), 2, "records written for derived features")
+    ext_sites = {}
+    roles_seen = {}
+    for g, w, fields, sep in records:
+        ok = len(fields) == len(keys)
+        ctx.ob("R2", ok, "writer and reader of the derived-feature file agree on the number of fields", node=w, func=g,
+               sig="record: %d fields written, %d read" % (len(fields), len(keys)))
+        ctx.ob("R2", sep == rsep, "writer and reader agree on the field separator", node=w, func=g, sig="record separator %r / %r" % (sep, rsep), nontrivial=False)
+        if not ok:
+            continue
+        rec = dict(zip(keys, fields))
+        ft = rec.get("featuretype")
+        role = ft[1] if ft is not None and ft[0] == "const" and ft[1] in IDS else None
+        ctx.ob("R2", role is not None, "a derived feature is typed 'transcript' or 'gene'", node=w, func=g, sig="derived featuretype := %s" % (show(ft) if ft else None))
         if role is None:
             continue
-        roles[role] = s
-        try:
-            got = S.to_cq(s.stmts[0], sch, {0: "id", 1: "sub"})
-        except S.SQLError as e:
-            ctx.ob("R2", False, "extent query normalises", node=s.call, func=f, sig="%s extent query: %s" % (role, e))
+        roles_seen[role] = (g, w)
+        idt = IDS[role]
+        first = rec.get(keys[0])
+        ctx.ob("R2", first == idt, "the record's first field is the %s id of the pair row" % role, node=w, func=g, sig="%s record id field := %s" % (role, show(first)), nontrivial=False)
+        want = {"start": "min(start)", "end": "max(end)", "strand": "strand", "seqid": "seqid"}
+        rows = set()
+        for k, col in want.items():
+            t = rec.get(k)
+            got_col = None
+            if t is not None and t[0] == "pos" and t[1][0] == "row" and t[1][1] in by_key and isinstance(t[2], int):
+                es = by_key[t[1][1]]
+                rows.add(t[1][1])
+                cols_ = es.stmts[0].cols if es.stmts and es.stmts[0].verb == "SELECT" else []
+                if 0 <= t[2] < len(cols_):
+                    e_ = cols_[t[2]][0]
+                    if e_[0] == "call" and e_[2] and e_[2][0][0] == "col":
+                        got_col = "%s(%s)" % (e_[1], e_[2][0][2].lower())
+                    elif e_[0] == "col":
+                        got_col = e_[2].lower()
+                    else:
+                        got_col = S.show(e_)
+            ctx.ob("R2", got_col == col, "field `%s` of the derived %s is %s of its subfeatures" % (k, role, col.upper()), node=w, func=g,
+                   sig="%s.%s := %s" % (role, k, got_col if got_col else show(t) if t else None))
+        ctx.ob("R2", len(rows) == 1, "start, end, strand and seqid of a derived %s come from one extent row" % role, node=w, func=g,
+               sig="%s extent fields from %d queries" % (role, len(rows)), nontrivial=False)
+        for rk in rows:
+            ext_sites[rk] = (role, idt)
+        bt = rec.get("bin")
+        okb = bt is not None and bt[0] == "call" and bt[1] == "bins.bins" and len(bt[3]) >= 2 and bt[3][0] == rec.get("start") and bt[3][1] == rec.get("end") and \
+            ("op", "kw", ("const", "one"), ("const", True)) in bt[3]
+        ctx.ob("R2", okb, "the derived %s is binned by its own extent (smallest containing bin)" % role, node=w, func=g, sig="%s.bin := %s" % (role, show(bt) if bt else None), nontrivial=False)
+        at = rec.get("attributes")
+        key_attr = ("attr", ("self",), "transcript_key" if role == "transcript" else "gene_key")
+        okj = at is not None and at[0] == "call" and at[1] == "helpers._jsonify"
+        ctx.ob("R2", okj, "attributes travel as JSON", node=w, func=g, sig="%s.attributes := %s" % (role, show(at)[:60] if at else None), nontrivial=False)
+        kv = _find(at, lambda x: isinstance(x, tuple) and x[:2] == ("op", "kv") and x[2] == key_attr) if at else None
+        okk = kv is not None and kv[3] == ("op", "list", idt)
+        ctx.ob("R2", okk, "the derived %s carries its id under the configured key, hence is retrievable by that id" % role, node=w, func=g,
+               sig="%s attributes[%s] := %s" % (role, key_attr[2], show(kv[3]) if kv else None))
+    for role in ("transcript", "gene"):
+        ctx.ob("R2", role in roles_seen, "there is a record for inferred %ss" % role, func=f,
+               sig="%s record present" % role if role in roles_seen else "%s record missing" % role, nontrivial=False)
+    # ---- extent queries
+    have_agg = [s_ for s_ in sels if is_ext(s_)]
+    ctx.ob("R2", bool(have_agg),
+           "the extent of a derived transcript/gene is the minimum start and the maximum end over its subfeature children (MIN/MAX aggregates)", func=f,
+           sig="extents computed with MIN(start)/MAX(end)" if have_agg else "derived extents are not computed as MIN(start) .. MAX(end)",
+           detail=None if have_agg else "e.g. 'first row's start, last row's end under ORDER BY start, end' is wrong for nested or overlapping exons")
+    spec_e = S.to_cq(S.parse(SPEC_EXTENT), sch)
+    for rk, (role, idt) in sorted(ext_sites.items()):
+        es = by_key[rk]
+        if not (es.stmts and es.stmts[0].verb == "SELECT"):
             continue
-        # compare up to the order of the projection
+        # bound to (the id of the pair row -- per calling context -- , the subfeature type)
+        pts = fl.terms(es.params, es.func) if es.params is not None else set()
+        okb = bool(pts) and all(t[0] == "op" and t[1] in ("tuple", "list") and len(t) == 4 and t[2] in IDS.values() and t[3] == SUB for t in pts) and \
+            any(t[2] == idt for t in pts if len(t) == 4)
+        ctx.ob("R2", okb, "an extent query is bound to (the transcript or gene id, the subfeature type)", node=es.call, func=es.func,
+               sig="%s extent query bound to %s" % (role, " | ".join(sorted(show(t) for t in pts))))
+        try:
+            got = S.to_cq(es.stmts[0], sch, {0: "id", 1: "sub"})
+        except S.SQLError as e:
+            ctx.ob("R2", False, "extent query normalises", node=es.call, func=es.func, sig="%s extent query: %s" % (role, e))
+            continue
         same_body = S.cq_equivalent(_with_proj(got, []), _with_proj(spec_e, []))
-        projs = sorted(repr(_canon(got, t)) for t in got.proj)
-        projs_spec = sorted(repr(_canon(spec_e, t)) for t in spec_e.proj)
         agg = sorted((t[1], _strip_alias(t[2])) for t in got.proj if t[0] == "agg")
         ok_agg = agg == [("max", "end"), ("min", "start")]
-        ctx.ob("R2", ok_agg, "%s extent = MIN(start) .. MAX(end) over the subfeature children" % role, node=s.call, func=f,
+        ctx.ob("R2", ok_agg, "%s extent = MIN(start) .. MAX(end) over the subfeature children" % role, node=es.call, func=es.func,
                sig="%s extent aggregates %s" % (role, ["%s(%s)" % a for a in agg]))
         ctx.ob("R2", same_body, "%s extent ranges over features F joined to relations R on F.id = R.child with R.parent = id and "
-               "F.featuretype = subfeature" % role, node=s.call, func=f,
+               "F.featuretype = subfeature" % role, node=es.call, func=es.func,
                sig="%s extent query ≅ specification" % role if same_body else "%s extent query differs: %s" % (role, got.describe()))
-        # unpack order = select order
-        unpack = None
-        for n in ast.walk(f.node):
-            if isinstance(n, ast.Assign) and isinstance(n.targets[0], ast.Tuple) and isinstance(n.value, ast.Call) and \
-                    call_attr(n.value) == "fetchone" and n.lineno > s.call.lineno and (unpack is None or n.lineno < unpack.lineno):
-                unpack = n
-        ctx.require(unpack is not None, "fetchone unpack for the %s extent not found" % role)
-        names = [e.id for e in unpack.targets[0].elts]
-        colterms = []
-        for e, _al in s.stmts[0].cols:
-            if e[0] == "call":
-                colterms.append("%s(%s)" % (e[1], e[2][0][2].lower() if e[2] and e[2][0][0] == "col" else "?"))
-            elif e[0] == "col":
-                colterms.append(e[2].lower())
-            else:
-                colterms.append(S.show(e))
-        var2col = dict(zip(names, colterms)) if len(names) == len(colterms) else {}
-        ctx.ob("R2", bool(var2col), "the extent row is unpacked into as many names as columns selected", node=unpack, func=f,
-               sig="%s extent unpack %d names / %d columns" % (role, len(names), len(colterms)), nontrivial=False)
-        _record_agreement(ctx, f, nested, role, tvar if role == "transcript" else gvar, var2col, unpack)
-    for role in ("transcript", "gene"):
-        ctx.ob("R2", role in roles, "there is an extent query for inferred %ss" % role, func=f,
-               sig="%s extent query present" % role if role in roles else "%s extent query missing" % role, nontrivial=False)
+    ctx.extra["derived_records"] = {r: [show(x) for x in rec_] for r, rec_ in ((ro, fi) for _g, _w, fi, _s in records for ro in [""])} if False else len(records)
+    return fl, pool, records, keys
 
 
 def _strip_alias(t):
@@ -282,98 +345,74 @@ def _with_proj(cq, proj):
     return c
 
 
-def _record_agreement(ctx, f, nested, role, idvar, var2col, after):
-    """The list written to the temp file and the reader's `keys` list agree
-    position by position."""
-    write_list = None
-    for c in calls_in(f.node):
-        if call_attr(c) == "write" and c.lineno > after.lineno:
-            for n in ast.walk(c):
-                if isinstance(n, ast.List) and len(n.elts) >= 6:
-                    if write_list is None or n.lineno < write_list.lineno:
-                        write_list = n
-            if write_list is not None:
-                break
-    ctx.require(write_list is not None, "record written for the derived %s not found" % role)
-    ctx.require(nested, "reader of the derived-feature file not found")
-    g = nested[0]
-    ctx.touch(g)
-    keys = None
-    for n in ast.walk(g.node):
-        if isinstance(n, ast.Assign) and isinstance(n.value, ast.List) and all(isinstance(e, ast.Constant) for e in n.value.elts) and len(n.value.elts) >= 6:
-            keys = [e.value for e in n.value.elts]
-    ctx.require(keys is not None, "reader `keys` list not found")
-    ok = len(keys) == len(write_list.elts)
-    ctx.ob("R2", ok, "writer and reader of the derived-feature file agree on the number of fields (%s)" % role, node=write_list, func=f,
-           sig="%s record: %d fields written, %d read" % (role, len(write_list.elts), len(keys)))
-    if not ok:
-        return
-    want = {"start": "min(start)", "end": "max(end)", "strand": "strand", "seqid": "seqid"}
-    for k, e in zip(keys, write_list.elts):
-        if k in want:
-            col = var2col.get(e.id) if isinstance(e, ast.Name) else None
-            ok = col == want[k]
-            ctx.ob("R2", ok, "field `%s` of the derived %s is %s of its subfeatures" % (k, role, want[k].upper()), node=e, func=f,
-                   sig="%s.%s := %s" % (role, k, col if col else norm(e)))
-        elif k == "featuretype":
-            ok = isinstance(e, ast.Constant) and e.value == role
-            ctx.ob("R2", ok, "the derived %s is typed '%s'" % (role, role), node=e, func=f, sig="%s.featuretype := %s" % (role, norm(e)))
-        elif k == "parent":
-            ok = isinstance(e, ast.Name) and e.id == idvar
-            ctx.ob("R2", ok, "the record's first field is the %s id" % role, node=e, func=f, sig="%s record id field := %s" % (role, norm(e)), nontrivial=False)
-        elif k == "attributes":
-            ok = isinstance(e, ast.Call) and call_attr(e) == "_jsonify"
-            ctx.ob("R2", ok, "attributes travel as JSON", node=e, func=f, sig="%s.attributes := %s" % (role, norm(e)), nontrivial=False)
-    # attributes of the derived feature carry the id under the configured key
-    attrs = None
-    for n in ast.walk(f.node):
-        if isinstance(n, ast.Assign) and isinstance(n.value, ast.Dict) and n.lineno > after.lineno and (attrs is None or n.lineno < attrs.lineno):
-            attrs = n
-    if attrs is not None:
-        kv = {norm(k): norm(v) for k, v in zip(attrs.value.keys, attrs.value.values)}
-        key = "self.transcript_key" if role == "transcript" else "self.gene_key"
-        ok = kv.get(key) == "[%s]" % idvar
-        ctx.ob("R2", ok, "the derived %s carries its id under the configured key, hence is retrievable by that id" % role, node=attrs, func=f,
-               sig="%s attributes %s" % (role, sorted(kv.items())))
-
-
-def r3(ctx):
+def r3(ctx, r2res):
+    """The derived transcript (gene) is written exactly when disable_infer_transcripts (disable_infer_genes) is off; with
+    both flags set no statement is executed at all.  Decided on the CFG path conditions of the writes, evaluated
+    three-valued over the four flag valuations (other guards are free)."""
+    fl, pool, records, keys = r2res
     f = gtf_method(ctx, "_update_relations")
-    cfg = cfg_of(f)
-    flags = {"transcript": "self.disable_infer_transcripts", "gene": "self.disable_infer_genes"}
-    writes = {}
-    for c in calls_in(f.node):
-        if call_attr(c) != "write":
+    FLAGS = {("attr", ("self",), "disable_infer_transcripts"): "dt", ("attr", ("self",), "disable_infer_genes"): "dg"}
+
+    def evterm(t, env):
+        if t in FLAGS:
+            return env[FLAGS[t]]
+        if t[0] == "op" and t[1] == "Not":
+            v = evterm(t[2], env)
+            return None if v is None else not v
+        if t[0] == "const":
+            return bool(t[1])
+        return None
+
+    def leaf_in(func):
+        def leaf(test, env):
+            vals = {evterm(t, env) for t in fl.terms(test, func)}
+            return vals.pop() if len(vals) == 1 else None
+        return leaf
+
+    def chain(g, node, depth=0):
+        """[(func, conds)] alternatives from f down to node."""
+        cfg = cfg_of(g)
+        cn = cfg.node_for(node)
+        here = [(g, cfg.conditions(cn.id) if cn is not None else [])]
+        if g is f or depth > 4:
+            return [here]
+        outs = []
+        for caller, call in fl.callers(g):
+            for up in chain(caller, call, depth + 1):
+                outs.append(up + here)
+        return outs or [here]
+
+    def reachable(g, node, env):
+        return any(all(_reachable_under(conds, env, leaf_in(h)) for h, conds in alt) for alt in chain(g, node))
+    idx = keys.index("featuretype") if "featuretype" in keys else None
+    ctx.require(idx is not None, "reader has no featuretype field")
+    import itertools
+    for g, w, fields, _sep in records:
+        ft = fields[idx] if idx < len(fields) else None
+        if not (ft and ft[0] == "const" and ft[1] in ("transcript", "gene")):
             continue
-        for n in ast.walk(c):
-            if isinstance(n, ast.List):
-                for e in n.elts:
-                    if isinstance(e, ast.Constant) and e.value in flags:
-                        writes[e.value] = c
-    for role, flag in flags.items():
-        c = writes.get(role)
-        ctx.require(c is not None, "write of the derived %s not found" % role)
-        tests = []
-        child = c
-        for p in parents(c):
-            if p is f.node:
+        role = ft[1]
+        flag = "dt" if role == "transcript" else "dg"
+        bad = None
+        for dt, dg in itertools.product((False, True), repeat=2):
+            env = {"dt": dt, "dg": dg}
+            if reachable(g, w, env) != (not env[flag]):
+                bad = env
                 break
-            if isinstance(p, ast.If):
-                pol = any(child is s_ for s_ in p.body)
-                tests.append((norm(p.test), pol))
-            child = p
-        flag_tests = [(t, pol) for t, pol in tests if "disable_infer" in t]
-        ok = flag_tests == [("not " + flag, True)]
-        ctx.ob("R3", ok, "the derived %s is written exactly when %s is off" % (role, flag.split(".")[1]), node=c, func=f,
-               sig="derived %s guarded by %s" % (role, flag_tests))
-    first = f.node.body[0]
-    while isinstance(first, ast.Expr) and isinstance(first.value, ast.Constant):
-        first = f.node.body[f.node.body.index(first) + 1]
-    t = norm(first.test) if isinstance(first, ast.If) else None
-    ok = isinstance(first, ast.If) and set(t.replace("(", "").replace(")", "").split(" and ")) == set(flags.values()) and \
-        isinstance(first.body[0], ast.Return)
-    ctx.ob("R3", ok, "with both flags set nothing is inferred (return before any work)", node=first, func=f,
-           sig="both flags -> return" if ok else "no early return under both flags (first statement: %s)" % t)
+        ctx.ob("R3", bad is None, "the derived %s is written exactly when %s is off" % (role, "disable_infer_" + role + "s"), node=w, func=g,
+               sig="derived %s written iff not disable_infer_%ss" % (role, role) if bad is None else
+               "derived %s: wrong under disable_infer_transcripts=%s, disable_infer_genes=%s" % (role, bad["dt"], bad["dg"]))
+    # both flags: nothing runs
+    both = {"dt": True, "dg": True}
+    ran = []
+    for x in execute_sites(ctx, [f]):
+        if reachable(f, x.call, both):
+            ran.append(x.call.lineno)
+    for c in calls_in(f.node):
+        if call_attr(c) == "write" and reachable(f, c, both):
+            ran.append(c.lineno)
+    ctx.ob("R3", not ran, "with both flags set nothing is inferred (no statement is executed, nothing is written)", func=f,
+           sig="both flags -> nothing executed" if not ran else "statements still run under both flags (%d sites)" % len(ran))
 
 
 def r4(ctx):
@@ -470,61 +509,81 @@ def _default_idspec(body, ctx, func):
 
 
 def r5_format_routing(ctx, rule="R5"):
+    """Format routing as a decision table obtained by abstract evaluation (partitioned dataflow) of create_db and
+    FeatureDB.update for every (force_gff, fmt, id_spec given or not): which importer class is constructed and with which
+    id_spec -- however the choice is spelled (cascade, lookup table, flags computed beforehand)."""
+    from ..absint import Interp, Sym, Opaque, Unsupported
     GTF_DEFAULT = {"gene": "gene_id", "transcript": "transcript_id"}
     cd = require_func(ctx, "create.create_db")
     up = require_func(ctx, "interface.FeatureDB.update")
     results = {}
-    for func, fmt_exprs, has_force in ((cd, {"dialect['fmt']"}, True), (up, {"self.dialect['fmt']"}, False)):
-        casc = None
-        for n in ast.walk(func.node):
-            if isinstance(n, ast.If) and any(x in norm(n.test) for x in fmt_exprs):
-                par = getattr(n, "_parent", None)
-                if isinstance(par, ast.If) and n in par.orelse:
-                    continue
-                c = _cascade(n)
-                if any(_creator_in(b, ctx.proj, func) in ("_GFFDBCreator", "_GTFDBCreator") for _t, b in c):
-                    casc = c
-                    break
-        ctx.require(casc is not None, "format routing cascade not found in %s" % func.qual)
+    CRE = {"create._GFFDBCreator": "_GFFDBCreator", "create._GTFDBCreator": "_GTFDBCreator"}
+
+    def outcomes(func, args, self_obj=None):
+        try:
+            traces = Interp(ctx).run(func, args, self_obj=self_obj)
+        except Unsupported as e:
+            ctx.require(False, "%s outside the analysable subset: %s" % (func.qual, e))
+        out = set()
+        for t in traces:
+            cons = [(CRE[e[1]], e[3]) for e in t.events if e[0] == "construct" and e[1] in CRE]
+            if cons:
+                for name, kw in cons:
+                    out.add((name, _freeze(kw.get("id_spec")), tuple(sorted((k, _freeze(v)) for k, v in kw.items() if k in ("transcript_key", "gene_key", "subfeature")))))
+            elif t.result[0] == "raise":
+                out.add(("raise", t.result[1], ()))
+        return out
+    tk, gk, sf = Sym("tk", "str", True), Sym("gk", "str", True), Sym("sf", "str", True)
+    for func, has_force in ((cd, True), (up, False)):
         for force in ((False, True) if has_force else (False,)):
             for fmt in ("gff3", "gtf", "other"):
-                env = {"force_gff": force, "fmt": fmt}
-                ev = _Ev(env, fmt_exprs)
-                chosen, idd = None, None
-                try:
-                    for t, body in casc:
-                        if t is None or ev.ev(t):
-                            chosen = _creator_in(body, ctx.proj, func)
-                            idd = _default_idspec(body, ctx, func)
-                            break
-                except ValueError as e:
-                    ctx.require(False, "routing test outside the modelled subset in %s: %s" % (func.qual, e))
-                want = "_GFFDBCreator" if (force or fmt == "gff3") else "_GTFDBCreator" if fmt == "gtf" else None
-                if want is None:
-                    ok = chosen in (None, "raise")
-                    ctx.ob(rule, ok, "%s: a dialect that is neither gff3 nor gtf selects no importer" % func.name, func=func,
-                           sig="%s routing fmt=other -> %s" % (func.name, chosen), nontrivial=False)
-                    continue
-                ctx.ob(rule, chosen == want, "%s: fmt=%s%s is imported by %s" % (func.name, fmt, ", force_gff" if force else "", want), func=func,
-                       sig="%s routing fmt=%s force_gff=%s -> %s" % (func.name, fmt, force, chosen))
-                want_id = "ID" if want == "_GFFDBCreator" else GTF_DEFAULT
-                ctx.ob(rule, idd == want_id, "%s: default id_spec for %s is %r" % (func.name, want, want_id), func=func,
-                       sig="%s default id_spec for %s = %r" % (func.name, want, idd))
-                results[(func.name, fmt, force)] = (chosen, repr(idd))
+                for given in (False, True):
+                    spec = Sym("spec", "any", True) if given else None
+                    if func is cd:
+                        got = outcomes(cd, {"data": Sym("data", "str", True), "dbfn": Sym("dbfn", "str", True), "force_gff": force, "dialect": {"fmt": fmt},
+                                            "id_spec": spec, "gtf_transcript_key": tk, "gtf_gene_key": gk, "gtf_subfeature": sf})
+                    else:
+                        so = Opaque("self", "obj")
+                        so.attrs["dialect"] = {"fmt": fmt}
+                        a = {"data": Sym("data", "str", True)}
+                        if given:
+                            a["id_spec"] = spec
+                        got = outcomes(up, a, self_obj=so)
+                    want = "_GFFDBCreator" if (force or fmt == "gff3") else "_GTFDBCreator" if fmt == "gtf" else None
+                    classes = sorted({g[0] for g in got})
+                    if want is None:
+                        ok = all(c == "raise" for c in classes)
+                        ctx.ob(rule, ok, "%s: a dialect that is neither gff3 nor gtf selects no importer" % func.name, func=func,
+                               sig="%s routing fmt=other -> %s" % (func.name, classes or None), nontrivial=False)
+                        continue
+                    ctx.ob(rule, classes == [want], "%s: fmt=%s%s is imported by %s" % (func.name, fmt, ", force_gff" if force else "", want), func=func,
+                           sig="%s routing fmt=%s force_gff=%s -> %s" % (func.name, fmt, force, classes or None))
+                    ids = sorted({repr(g[1]) for g in got if g[0] == want})
+                    want_id = _freeze(spec) if given else _freeze("ID" if want == "_GFFDBCreator" else GTF_DEFAULT)
+                    ctx.ob(rule, ids == [repr(want_id)], "%s: %s for %s" % (func.name, "a given id_spec is passed on unchanged" if given else "default id_spec is %r" % (want_id,), want),
+                           func=func, sig="%s id_spec for %s (%s) = %s" % (func.name, want, "given" if given else "default", ", ".join(ids) or None))
+                    results[(func.name, fmt, force, given)] = (classes, ids)
+                    if func is cd and want == "_GTFDBCreator" and not given:
+                        keys = {g[2] for g in got if g[0] == want}
+                        okk = keys == {(("gene_key", _freeze(gk)), ("subfeature", _freeze(sf)), ("transcript_key", _freeze(tk)))}
+                        ctx.ob(rule, okk, "custom transcript/gene keys and subfeature type reach the GTF importer", func=cd,
+                               sig="GTF importer receives gtf_transcript_key, gtf_gene_key, gtf_subfeature" if okk else "GTF importer kwargs %s" % sorted(keys))
     for fmt in ("gff3", "gtf"):
-        a, b = results.get(("create_db", fmt, False)), results.get(("update", fmt, False))
-        ctx.ob(rule, a == b and a is not None, "create_db and update route fmt=%s alike" % fmt, func=up,
-               sig="routing agreement fmt=%s: %s" % (fmt, "same" if a == b else "%s vs %s" % (a, b)), nontrivial=False)
-    # GTF keys forwarded
-    want = {"transcript_key": "gtf_transcript_key", "gene_key": "gtf_gene_key", "subfeature": "gtf_subfeature"}
-    found = {}
-    for n in ast.walk(cd.node):
-        if isinstance(n, ast.Call) and is_name(n.func, "dict"):
-            for k in n.keywords:
-                if k.arg in want:
-                    found[k.arg] = norm(k.value)
-    ctx.ob(rule, found == want, "custom transcript/gene keys and subfeature type reach the GTF importer", func=cd,
-           sig="GTF importer kwargs %s" % sorted(found.items()))
+        for given in (False, True):
+            a, b = results.get(("create_db", fmt, False, given)), results.get(("update", fmt, False, given))
+            ctx.ob(rule, a == b and a is not None, "create_db and update route fmt=%s alike" % fmt, func=up,
+                   sig="routing agreement fmt=%s id_spec %s: %s" % (fmt, "given" if given else "default", "same" if a == b else "%s vs %s" % (a, b)), nontrivial=False)
+
+
+def _freeze(v):
+    from ..absint import Sym
+    if isinstance(v, Sym):
+        return "<%s>" % v.name
+    if isinstance(v, dict):
+        return tuple(sorted((k, _freeze(x)) for k, x in v.items()))
+    if isinstance(v, (list, tuple)):
+        return tuple(_freeze(x) for x in v)
+    return v
 
 
 def check(ctx):
@@ -538,7 +597,7 @@ def check(ctx):
         "(aggregates are computed by SQLite over runtime rows).")
     sch = schema(ctx)
     r1_r6(ctx, sch)
-    r2(ctx, sch)
-    r3(ctx)
+    res = r2(ctx, sch)
+    r3(ctx, res)
     r4(ctx)
     r5_format_routing(ctx)
